@@ -113,6 +113,47 @@ def batch_worker(kp, job):
     return {'records': [engine.rec('batch', viol=viol, kind='batch', key=('batch', idx, n))]}
 
 
+def options_worker(kp, job):
+    """ONE ExportOptions object whose category selection is the caller's own container (a set, a list, a frozenset, the
+    module's BEKERN_CATEGORIES) and ONE Exporter serve the six encodings of a document in random order, twice: every
+    export equals the export with fresh options, and the caller's container keeps its members"""
+    seed, idx = job
+    rng = random.Random(seed * 573259391 + idx)
+    g = docs.gen_doc(rng, force_clef=True, plain_acc=True, max_spines=3, measures=rng.randint(1, 2))
+    text = g.text
+    try:
+        doc, errs = kp.loads(text)
+    except Exception:
+        return {'records': []}
+    TC = kp.TokenCategory
+    records = []
+    for label, make in (('set', lambda: set(TC.all()) if hasattr(TC, 'all') else set(TC)), ('list', lambda: list(TC)),
+                        ('frozenset', lambda: frozenset(TC)), ('set-minus-lyrics', lambda: set(TC) - {TC.LYRICS})):
+        cats = make()
+        before = sorted(c.name for c in cats)
+        options = kp.ExportOptions(token_categories=cats)
+        exporter = kp.Exporter()
+        order = list(optprops.ENCODINGS)
+        rng.shuffle(order)
+        viol = []
+        for enc in order + order[::-1]:
+            options.kern_type = kp.Encoding(enc)
+            try:
+                got = 'ok:' + exporter.export_string(doc, options)
+            except Exception as e:
+                got = 'err:' + type(e).__name__
+            want = docs.impl_dumps(kp, doc, encoding=enc, include=before)
+            if got != want and not viol:
+                viol.append(('view', f'one ExportOptions holding the caller\'s {label} of categories, encodings in the order {order}: the {enc} export differs '
+                                     f'from the export with fresh options', {'text': text, 'encoding': enc, 'order': order}))
+        after = sorted(c.name for c in cats)
+        if after != before and not viol:
+            viol.append(('view', f'exporting changed the caller\'s {label} of categories: lost {sorted(set(before) - set(after))}, gained {sorted(set(after) - set(before))}',
+                         {'text': text, 'order': order}))
+        records.append(engine.rec('options-session', viol=viol, kind='options-session:' + label, key=('options-session', text, label, str(order))))
+    return {'records': records}
+
+
 def run(chk):
     b = core.standard_build(chk)
     model = core.Model() if b.modelrun_ok else None
@@ -120,10 +161,11 @@ def run(chk):
     n = core.budget(chk, full, 60, 500)
     chk.rule = ('generated documents (a clef in force for every note, accidentals up to two sharps / flats so that the agnostic '
                 'encodings are defined) x 3 category selections that keep durations or pitches x the six encodings; batch '
-                'sessions of 120 small documents of 8 spine layouts loaded, exported and dropped in one process (header rows); '
+                'sessions of 120 small documents of 8 spine layouts loaded, exported and dropped in one process (header rows); one ExportOptions object holding the caller-owned category container serving the six encodings in random order; '
                 'non-trivial = distinct (text, options)')
     results = engine.pmap(worker, [(chk.seed, i) for i in range(n)])
     results += engine.pmap(batch_worker, [(chk.seed, i) for i in range(core.budget(chk, full, 16, 64))])
+    results += engine.pmap(options_worker, [(chk.seed, i) for i in range(core.budget(chk, full, 16, 96))])
     engine.settle(chk, results, model)
     chk.disagreements_checked = len(chk.broken)
 
